@@ -107,6 +107,11 @@ class IterV:
         return 'IterV(%s)' % self.kind
 
 
+class InfiniteLanguage(Exception):
+    """the expression / pattern under inspection contains an unbounded quantifier: its language is infinite, which is already a
+    difference to any finite set of test cases (treated as a violation on that path, not as "could not decide")"""
+
+
 class Opaque:
     __slots__ = ('tag', 'p')
 
@@ -443,10 +448,10 @@ def parse_stmt(s):
     sc = split_call(m.group(2).strip()) if m else None
     if sc:
         return ('call', m.group(1), sc[0], split_top(sc[1]), m.group(3))
-    m = re.match(r'(.*?) = (.*) -> unwind.*$', s, re.S)
+    m = re.match(r'(.*?) = (.*) -> unwind.*$', s, re.S) or re.match(r'(.*?) = (.*\)) -> bb\d+$', s, re.S)
     sc = split_call(m.group(2).strip()) if m else None
     if sc:
-        return ('diverge', sc[0], split_top(sc[1]))
+        return ('diverge', sc[0], split_top(sc[1]))       # no return edge (the only successor, if any, is the unwind path)
     m = re.match(r'discriminant\((.*)\) = (\d+)$', s)
     if m:
         return ('setdiscr',)
